@@ -5,9 +5,10 @@ import SqlfluffVerif.Driver.Dedupe
 import SqlfluffVerif.Driver.Noqa
 import SqlfluffVerif.Driver.Select
 import SqlfluffVerif.Driver.MatchResult
+import SqlfluffVerif.Driver.TreeSpec
 open SqlfluffVerif SqlfluffVerif.Proto SqlfluffVerif.Driver
 
-def handlers : List (List String → Option String) := [handlePos, handlePatch, handleDedupe, handleNoqa, handleSelect, handleMR]
+def handlers : List (List String → Option String) := [handlePos, handlePatch, handleDedupe, handleNoqa, handleSelect, handleMR, handleTreeSpec]
 
 def handle (toks : List String) : String :=
   match toks with
